@@ -591,6 +591,16 @@ pub async fn cmd_stall(args: Vec<String>) -> Result<()> {
             Err(_) => "timeout_30s".to_string(),
         };
         log.emit("other_topic_roundtrip", json!({"res": res2, "ms": t.elapsed().as_millis() as u64}));
+        // ... also for the client whose own publisher is stuck behind the stalled topic: its
+        // connection carries other topics too
+        let t3 = std::time::Instant::now();
+        let r3 = tokio::time::timeout(Duration::from_secs(30), probe(&client, &format!("/vstall{run}/ddd"), "pubsub")).await;
+        let res3 = match r3 {
+            Ok(Ok(())) => "ok".to_string(),
+            Ok(Err(e)) => format!("fail: {e}"),
+            Err(_) => "timeout_30s".to_string(),
+        };
+        log.emit("other_topic_roundtrip", json!({"res": res3, "ms": t3.elapsed().as_millis() as u64, "who": "connection_of_the_blocked_publisher"}));
         log.emit("done", json!({"panics": PANICS.load(Ordering::SeqCst)}));
         drop(dead_sub);
     }
@@ -652,6 +662,14 @@ pub async fn cmd_stall(args: Vec<String>) -> Result<()> {
             };
             log.emit("other_topic_roundtrip", json!({"res": res, "ms": t0.elapsed().as_millis() as u64}));
         }
+        let t3 = std::time::Instant::now();
+        let r3 = tokio::time::timeout(Duration::from_secs(30), probe(&client, &format!("/vstall{run}/ddd"), "reqrep")).await;
+        let res3 = match r3 {
+            Ok(Ok(())) => "ok".to_string(),
+            Ok(Err(e)) => format!("fail: {e}"),
+            Err(_) => "timeout_30s".to_string(),
+        };
+        log.emit("other_topic_roundtrip", json!({"res": res3, "ms": t3.elapsed().as_millis() as u64, "who": "connection_of_the_blocked_requestor"}));
         log.emit("done", json!({"panics": PANICS.load(Ordering::SeqCst)}));
         drop(dead_rep);
         std::mem::forget(keep);
@@ -684,8 +702,50 @@ pub async fn cmd_tls(args: Vec<String>) -> Result<()> {
     std::fs::create_dir_all(ss_dir.join("client"))?;
     std::fs::write(ss_dir.join("client/localhost.der"), ss.serialize_der()?)?;
     std::fs::write(ss_dir.join("client/localhost.key.der"), ss.serialize_private_key_der())?;
-    // the client's CA is always set 1's: "trusted" server = set 1, "other_ca" server = set 2
-    let servers = [("trusted", start_server(&set1, "127.0.0.1:0")?), ("other_ca", start_server(&set2, "127.0.0.1:0")?)];
+    // servers whose certificate comes from one set and which accept clients of the other
+    let mix = |cert_from: &PathBuf, accepts: &PathBuf, name: &str| -> Result<PathBuf> {
+        let d = PathBuf::from(format!("{out}.certs-{name}"));
+        std::fs::create_dir_all(d.join("server"))?;
+        std::fs::copy(cert_from.join("server/localhost.der"), d.join("server/localhost.der"))?;
+        std::fs::copy(cert_from.join("server/localhost.key.der"), d.join("server/localhost.key.der"))?;
+        std::fs::copy(accepts.join("server/ca.der"), d.join("server/ca.der"))?;
+        Ok(d)
+    };
+    let mix_ot = mix(&set2, &set1, "mix-ot")?;
+    let mix_to = mix(&set1, &set2, "mix-to")?;
+    // identity files holding the own certificate followed by the other set's CA certificate (PEM)
+    let pem = |ders: &[Vec<u8>]| -> String {
+        const T: &[u8; 64] = b"ABCDEFGHIJKLMNOPQRSTUVWXYZabcdefghijklmnopqrstuvwxyz0123456789+/";
+        let mut out = String::new();
+        for der in ders {
+            let mut b64 = String::new();
+            for ch in der.chunks(3) {
+                let n = (ch[0] as u32) << 16 | (*ch.get(1).unwrap_or(&0) as u32) << 8 | *ch.get(2).unwrap_or(&0) as u32;
+                b64.push(T[(n >> 18) as usize & 63] as char);
+                b64.push(T[(n >> 12) as usize & 63] as char);
+                b64.push(if ch.len() > 1 { T[(n >> 6) as usize & 63] as char } else { '=' });
+                b64.push(if ch.len() > 2 { T[n as usize & 63] as char } else { '=' });
+            }
+            out.push_str("-----BEGIN CERTIFICATE-----\n");
+            for line in b64.as_bytes().chunks(64) {
+                out.push_str(std::str::from_utf8(line).unwrap());
+                out.push('\n');
+            }
+            out.push_str("-----END CERTIFICATE-----\n");
+        }
+        out
+    };
+    let chain_dir = PathBuf::from(format!("{out}.certs-chains"));
+    std::fs::create_dir_all(&chain_dir)?;
+    std::fs::write(chain_dir.join("chain_T_with_caO.pem"), pem(&[read_der(set1.join("client/localhost.der"))?, read_der(set2.join("client/ca.der"))?]))?;
+    std::fs::write(chain_dir.join("chain_O_with_caT.pem"), pem(&[read_der(set2.join("client/localhost.der"))?, read_der(set1.join("client/ca.der"))?]))?;
+    // the set "trusted" refers to is set 1 (T); set 2 is O
+    let servers = [
+        ("trusted", start_server(&set1, "127.0.0.1:0")?),
+        ("other_ca", start_server(&set2, "127.0.0.1:0")?),
+        ("cert_O_accepts_T", start_server(&mix_ot, "127.0.0.1:0")?),
+        ("cert_T_accepts_O", start_server(&mix_to, "127.0.0.1:0")?),
+    ];
     let ca1 = read_der(set1.join("client/ca.der"))?;
     let ca2 = read_der(set2.join("client/ca.der"))?;
     let mut k = 0u64;
@@ -698,8 +758,8 @@ pub async fn cmd_tls(args: Vec<String>) -> Result<()> {
         let (ca, ca_set) = if trust == "T" { (&ca1, &set1) } else { (&ca2, &set2) };
         let addr = servers.iter().find(|(n, _)| *n == sid).unwrap().1.addr;
         let ident_dir = match cid {
-            "trusted" => Some(set1.clone()),
-            "other_ca" => Some(set2.clone()),
+            "trusted" | "chain_T_with_caO" => Some(set1.clone()),
+            "other_ca" | "chain_O_with_caT" => Some(set2.clone()),
             "self_signed" => Some(ss_dir.clone()),
             _ => None,
         };
@@ -709,6 +769,8 @@ pub async fn cmd_tls(args: Vec<String>) -> Result<()> {
             let ident = match (cid, &ident_dir) {
                 ("borrowed_chain_self", _) => Some((vec![read_der(ss_dir.join("client/localhost.der"))?, trusted_public], read_der(ss_dir.join("client/localhost.key.der"))?)),
                 ("borrowed_chain_other", _) => Some((vec![read_der(set2.join("client/localhost.der"))?, trusted_public], read_der(set2.join("client/localhost.key.der"))?)),
+                ("chain_T_with_caO", _) => Some((vec![read_der(set1.join("client/localhost.der"))?, read_der(set2.join("client/ca.der"))?], read_der(set1.join("client/localhost.key.der"))?)),
+                ("chain_O_with_caT", _) => Some((vec![read_der(set2.join("client/localhost.der"))?, read_der(set1.join("client/ca.der"))?], read_der(set2.join("client/localhost.key.der"))?)),
                 (_, Some(d)) => Some((vec![read_der(d.join("client/localhost.der"))?], read_der(d.join("client/localhost.key.der"))?)),
                 _ => None,
             };
@@ -739,7 +801,10 @@ pub async fn cmd_tls(args: Vec<String>) -> Result<()> {
                     .backoff_strategy(BackoffStrategy::constant().with_max_attempts(0))
                     .endpoint(&addr.to_string())
                     .with_certificate_authority(ca_set.join("client/ca.der"))?
-                    .with_cert_and_key(d.join("client/localhost.der"), d.join("client/localhost.key.der"))?
+                    .with_cert_and_key(
+                        if cid.starts_with("chain_") { chain_dir.join(format!("{cid}.pem")) } else { d.join("client/localhost.der") },
+                        d.join("client/localhost.key.der"),
+                    )?
                     .connect()
                     .await?;
                 let sub = client.subscriber(&topic).with_decoder(StringCodec).open().await?;
@@ -756,7 +821,7 @@ pub async fn cmd_tls(args: Vec<String>) -> Result<()> {
             "registered": registered, "detail": detail.chars().take(100).collect::<String>()}));
     }
     log.flush();
-    for d in [&set1, &set2, &ss_dir] {
+    for d in [&set1, &set2, &ss_dir, &mix_ot, &mix_to, &chain_dir] {
         let _ = std::fs::remove_dir_all(d);
     }
     println!("{}", json!({"runs": cases.len(), "events": log.lines()}));
